@@ -9,11 +9,16 @@
      2  strconv  strconv2.ParseAny(cin) = cvobs, FormatAny of it = cobs
      3  format   strconv2.FormatAny(cvobs) = cobs, cvobs read back from the real Configure
 
+     hist (record hcase)  ONE Configure over time: resolutions of tag texts (through the real ${} processor bound
+                 to that Configure: called directly, or by a new App.Run on the shared Configure, or for
+                 successive components of one App.Run), Configure.Set and Configure.Get in any order.  The
+                 configuration is the model's store (Model/ConfigStore.v: vget / vset), not a table.
+
    cfix = the variant of the ${} callback the tree under test has, read off the running code by a facts probe
    (tools/props/c16.py): true = repair D-C17g (a float64 is spliced by FormatFloat(f,'f',-1,64)), false = the
    unrepaired callback (FormatAny).  Kinds 2 and 3 call strconv2 directly and do not depend on it. *)
 From Coq Require Import List NArith ZArith Bool Arith.
-From IocVerif Require Import Model.Strconv Model.Placeholder.
+From IocVerif Require Import Model.Strconv Model.Placeholder Model.ConfigStore.
 Import ListNotations.
 
 Record case := mkCase {
@@ -264,3 +269,108 @@ Definition kf_codes (cs : list case) : list nat :=
                (nodup Nat.eq_dec (filter (fun k => negb (Nat.eqb k 0)) (rac_classes (cfix c) (cfg_of (ccfg c)) repo_budget (cin c))))
     | _ => []
     end) cs.
+
+(* ---- histories on one Configure ------------------------------------------------------------------------- *)
+
+Inductive hobs : Type :=
+| OResolve (cin : bytes) (ast : list tpart) (strict : bool) (o : outcome)
+    (* TagStr as the ${} processor read it; the AST the generator rendered it from; observed TagVal / outcome *)
+| OSet (key : bytes) (v : cval)       (* Configure.Set(key, v) *)
+| OGet (key : bytes) (v : cval).      (* Configure.Get(key) returned v (VNull = nil) *)
+
+Record hcase := mkHCase {
+  hid : nat;
+  hconfig : cval;              (* the document the loaders merged (VMap; VMap [] when there is none) *)
+  hsteps : list hobs;
+  hfix : bool
+}.
+
+Definition store0 (c : hcase) : vstore :=
+  mkStore [] (match hconfig c with VMap kvs => kvs | _ => [] end).
+
+(* every key the run of the model looks up is one the store model covers (non-empty, no signed segment) *)
+Fixpoint rac_keys_modelled (fx : bool) (cfg : bytes -> cval) (fuel : nat) (s : bytes) : bool :=
+  match find_first b_dollar s with
+  | None => true
+  | Some (i, n) =>
+    match fuel with
+    | O => true
+    | S k =>
+      let elr := firstn n (skipn i s) in
+      key_modelled (fst (split_first b_colon (content elr))) &&
+        match resolve fx cfg (content elr) with
+        | Ok r => rac_keys_modelled fx cfg k (replace_first s elr r)
+        | _ => true
+        end
+    end
+  end.
+
+Definition resolve_modelled (fx : bool) (s : vstore) (cin : bytes) : bool :=
+  rac_in_fragment fx (vget s) repo_budget cin && rac_keys_modelled fx (vget s) repo_budget cin.
+
+(* model vs implementation, step by step; a Set outside the model's domain is a fault of the generator *)
+Fixpoint hcheck (fx : bool) (s : vstore) (steps : list hobs) : bool :=
+  match steps with
+  | [] => true
+  | OResolve cin _ _ o :: r =>
+      (if resolve_modelled fx s cin
+       then outcome_eqb (quote_stage fx (vget s) (Some repo_budget) 0 cin) o else true)
+      && hcheck fx s r
+  | OSet k v :: r => key_modelled k && val_modelled v && hcheck fx (vset s k v) r
+  | OGet k v :: r => key_modelled k && cval_eqb (vget s k) v && hcheck fx s r
+  end.
+
+Definition check_hcase (c : hcase) : bool := cfg_modelled (hconfig c) && hcheck (hfix c) (store0 c) (hsteps c).
+
+(* the property on the observation: never a hang, never a panic; where the tag is a clean AST the outcome is the
+   denotation over the configuration AS IT IS AT THAT MOMENT (the store after the Sets made so far) *)
+Definition strict_applies_f (f : bytes -> res bytes) (strict : bool) (ast : list tpart) (cin : bytes) : bool :=
+  strict && beqb (render_all b_dollar ast) cin
+  && forallb wf ast && forallb (clean f) ast
+  && Nat.leb (ph_count_all ast) repo_budget.
+
+Definition hstrict (fx : bool) (s : vstore) (cin : bytes) (ast : list tpart) (strict : bool) : bool :=
+  strict_applies_f (spec_resolve fx (vget s)) strict ast cin && rac_keys_modelled fx (vget s) repo_budget cin.
+
+Fixpoint horacle (fx : bool) (s : vstore) (steps : list hobs) : bool :=
+  match steps with
+  | [] => true
+  | OResolve cin ast strict o :: r =>
+      match o with
+      | OutOfFuel => false
+      | Panicked => false
+      | _ => if hstrict fx s cin ast strict
+             then outcome_eqb (of_res (subst_all (spec_resolve fx (vget s)) ast)) o
+             else true
+      end && horacle fx s r
+  | OSet k v :: r => horacle fx (vset s k v) r
+  | OGet _ _ :: r => horacle fx s r
+  end.
+
+Definition oracle_hcase (c : hcase) : bool := horacle (hfix c) (store0 c) (hsteps c).
+
+(* non-trivial: a resolution, then a Set, then another resolution *)
+Fixpoint hphase (ph : nat) (steps : list hobs) : bool :=
+  match steps with
+  | [] => false
+  | OResolve _ _ _ _ :: r => match ph with 2%nat => true | _ => hphase 1 r end
+  | OSet _ _ :: r => hphase (match ph with 0%nat => 0%nat | _ => 2%nat end) r
+  | _ :: r => hphase ph r
+  end.
+Definition hnontrivial (c : hcase) : bool := hphase 0 (hsteps c).
+
+Fixpoint hcount_strict_steps (fx : bool) (s : vstore) (steps : list hobs) : nat :=
+  match steps with
+  | [] => O
+  | OResolve cin ast strict _ :: r => (if hstrict fx s cin ast strict then 1 else 0) + hcount_strict_steps fx s r
+  | OSet k v :: r => hcount_strict_steps fx (vset s k v) r
+  | _ :: r => hcount_strict_steps fx s r
+  end.
+
+Definition hmismatches (cs : list hcase) : list nat := map hid (filter (fun c => negb (check_hcase c)) cs).
+Definition hviolations (cs : list hcase) : list nat := map hid (filter (fun c => negb (oracle_hcase c)) cs).
+Definition hcount_nontrivial (cs : list hcase) : list nat := [length (filter hnontrivial cs)].
+Definition hcount_strict (cs : list hcase) : list nat :=
+  [list_sum (map (fun c => hcount_strict_steps (hfix c) (store0 c) (hsteps c)) cs)].
+Definition hcount_resolves (cs : list hcase) : list nat :=
+  [list_sum (map (fun c => length (filter (fun o => match o with OResolve _ _ _ _ => true | _ => false end) (hsteps c))) cs)].
